@@ -35,7 +35,7 @@ T = {
             'API calls (Publish QoS 0-2, Subscribe, Unsubscribe, concurrent publishes) and fake-broker behaviour (acks in any order, PUBREC only, stray acks, drop, denied/wrong first packet) are generated; every connection operation and every session call is failed in turn; the outgoing store is compared with a map model after every step, everything recorded must be re-sent after CONNACK, futures must be pending before and complete after their acknowledgement, resolved after every end, accessors never panic, Close/Disconnect return.',
             'after an injected fault only the state-independent clauses are judged; hang = no return within 10 s', '4 C09, 9'),
     "C10": ('fault_enumeration', 'generated fake-broker scripts interpreted against the MQTT sender rules x application verdicts x callback modes x clean/persistent session x enumerated connection-fault positions; sender-side handshake model with QoS 1 barriers',
-            "Scripts of PUBLISH/PUBREL (also duplicated / repeated), QoS 0/1 messages, drop+resume, a broker that loses its session and reuses ids, and an application that closes the client while its callback runs, over 1-3 ids, are generated with accept/reject verdicts; every send and receive on the client's connection is failed in turn; judged against the sender-side handshake model (every PUBLISH/PUBREL answered, exactly one accepted delivery per handshake, no ack after a rejected delivery).",
+            "Scripts of PUBLISH/PUBREL (also duplicated / repeated), QoS 0/1 messages, drop+resume, a broker that loses its session and reuses ids, an application that closes the client while its callback runs, and the application's own Subscribe/Unsubscribe/Publish calls (colliding packet ids), over 1-3 ids, are generated with accept/reject verdicts; every send and receive on the client's connection and every operation of the client's session store is failed in turn; judged against the sender-side handshake model (every PUBLISH/PUBREL answered, exactly one accepted delivery per handshake, no ack after a rejected delivery).",
             'default callback mode for exactly-once; early mode only ordering clauses', '4 C10, 9'),
     "C11": ("exploration", "model-based stateful testing of retained messages (rapid histories x bounded-exhaustive filter set) vs. map model + reference matcher; generated publish/subscribe races behind a held backend mutex (atomicity oracle) and enumerated own-queue-full completions",
             "Histories of retained/non-retained/empty publishes, wills and subscriptions with every filter of the depth-3 exhaustive filter set are run; each SUBSCRIBE's replay is compared with the model.",
